@@ -4,7 +4,7 @@ CONSTANTS
   NMax = 5
   Dim = 2
   Grid = 2
-  EmitMod = 1
+  EmitMod = 5
 INVARIANT ImplIsAdmissible
 INVARIANT PrefixClosed
 \* GEN: Emit prints one replay case per point set
